@@ -742,6 +742,20 @@ let () = register "c04" (fun line ->
            pending := !hook_left;
            replies := val_string (Dispatch.assemble_reply a rs) :: !replies;
            execs := string_of_int (L.length subs) :: !execs)
+      | ["p"; cnt; hx] ->
+        let key = bytes_of_hex hx in
+        keys := key :: !keys;
+        for _ = 1 to int_of_string cnt do
+          let s = { Cluster.sk = key; sb = [Resp.Bulk (Some (bytes_of_ocaml "incr")); Resp.Bulk (Some key)] } in
+          let pre = !pending in
+          pending := [];
+          let cs1 = Migrate.do_msteps c04_slot !cs pre in
+          let first = cs1.Migrate.own (c04_slot key) in
+          (match Migrate.run_seq RedisSem.sem c04_slot (S (S (S O))) !cs [{ Migrate.q_pre = pre; q_sub = s; q_first = first; q_envs = [] }] with
+           | (cs2, [Some ((r, _), _)]) -> cs := cs2; replies := val_string r :: !replies
+           | (cs2, _) -> cs := cs2; replies := "LOOP" :: !replies);
+          execs := "1" :: !execs
+        done
       | ["fo"; i] -> if not (L.mem i !dead) then dead := i :: !dead
       | ["mb"; _; t] when L.mem t !dead -> ()
       | _ -> (match c04_step fs !cs with Some m -> pending := !pending @ [m] | None -> ()))
